@@ -119,10 +119,13 @@ func init() {
 		// permutation: a bijection p on [0,len)
 		perm := e.ctx.Fresh("perm", ArrSort(SInt, SInt))
 		inv := e.ctx.Fresh("perminv", ArrSort(SInt, SInt))
-		st.assume(Forall([]Term{i}, Implies(And(Le(IntLit(0), i), Lt(i, sv.Len)),
+		inRange := And(Le(IntLit(0), i), Lt(i, sv.Len))
+		st.assume(ForallPat([]Term{i}, [][]Term{{Select(perm, i)}, {at(na, i)}}, Implies(inRange,
 			And(Le(IntLit(0), Select(perm, i)), Lt(Select(perm, i), sv.Len), Eq(Select(inv, Select(perm, i)), i),
-				Le(IntLit(0), Select(inv, i)), Lt(Select(inv, i), sv.Len), Eq(Select(perm, Select(inv, i)), i),
 				Eq(at(na, i), at(oldInner, Select(perm, i)))))))
+		st.assume(ForallPat([]Term{i}, [][]Term{{Select(inv, i)}, {at(oldInner, i)}}, Implies(inRange,
+			And(Le(IntLit(0), Select(inv, i)), Lt(Select(inv, i), sv.Len), Eq(Select(perm, Select(inv, i)), i),
+				Eq(at(oldInner, i), at(na, Select(inv, i)))))))
 		st.assume(Forall([]Term{i}, Implies(Or(Lt(i, sv.Off), Ge(i, Add(sv.Off, sv.Len))), Eq(Select(na, i), Select(oldInner, i)))))
 		st.setHeapArr(key, Store(a, sv.Arr, na))
 		st.ghost["sort.perm"] = perm
@@ -380,6 +383,18 @@ func init() {
 		_, c := bufLoad(e, st, args[0], pos)
 		e.strFacts(st, c)
 		return ret(st, slen(c))
+	}
+	builtinSpecs["(*bytes.Buffer).Cap"] = func(e *Engine, st *State, fn *ssa.Function, args []Value, pos token.Pos) []*State {
+		_, c := bufLoad(e, st, args[0], pos)
+		r := e.ctx.Fresh("bufcap", SInt)
+		st.assume(And(Le(slen(c), r), Le(r, T("4611686018427387904", SInt))))
+		e.note("bytes.Buffer.Cap: an arbitrary value >= Len (capacity is not modelled)")
+		return ret(st, r)
+	}
+	builtinSpecs["(*bytes.Buffer).Grow"] = func(e *Engine, st *State, fn *ssa.Function, args []Value, pos token.Pos) []*State {
+		bufLoad(e, st, args[0], pos)
+		e.oblige(st, "safe", "buffer_grow_negative", Le(IntLit(0), args[1].(Term)), pos)
+		return ret(st, nil)
 	}
 	builtinSpecs["(*bytes.Buffer).Reset"] = func(e *Engine, st *State, fn *ssa.Function, args []Value, pos token.Pos) []*State {
 		p, _ := bufLoad(e, st, args[0], pos)
